@@ -142,3 +142,79 @@ Section OvTree.
   Qed.
   End W.
 End OvTree.
+
+Lemma entries_tree_raw_any dbg h o r :
+  entries_raw dbg h o = Ok r -> entries_tree dbg h o = Ok (mkTree (r_in r) r null_die).
+Proof.
+  unfold entries_raw, entries_tree.
+  destruct (match o with Some o0 => Ok o0 | None => header_size dbg h end) as [off| | |]; cbn [bind]; try discriminate.
+  destruct (range_from dbg h off) as [input| | |]; cbn [bind]; try discriminate.
+  unfold raw_new. destruct (chk_add 64 dbg off (nlen input)) as [x| | |]; cbn [bind]; try discriminate.
+  intros H. inversion H; subst. reflexivity.
+Qed.
+
+Section UnitOvTree.
+  Variables (dbg bigend types : bool) (uoff : N) (h : uheader) (codes : coding) (ov : N -> option N)
+            (t : tree) (f : list tree) (pad : nat) (tbl : abbrevs).
+  Let e := unit_enc bigend h.
+  Let hl := header_len h.
+  Let body := enc_forest_ov codes ov bigend hl (t :: f) pad.
+  Let hdr := parsed_header bigend types uoff h body.
+  Hypothesis He : addr_size_ok e.
+  Hypothesis Hlen : hl + nlen body < two63.
+  Hypothesis Hcov : all_covered tbl codes (t :: f).
+  Hypothesis Hok : forest_ok codes e (t :: f).
+  Hypothesis Hfit : sibs_fit_ov codes ov hl (t :: f).
+
+  Lemma tree_ov :
+    exists ts, entries_tree dbg hdr None = Ok ts /\
+               walk_tree dbg e tbl ts = Ok (Some (dtree_ov codes ov 0 hl t), None).
+  Proof.
+    set (l := evs_list_ov codes ov bigend 0 hl (t :: f) ++ pad_evs (hl + forest_size codes (t :: f)) 0 pad).
+    assert (Hfacts : Forall (tree_facts codes ov bigend) (t :: f))
+      by (apply Forall_forall; intros k _; apply evs_ov_facts).
+    destruct (list_facts codes ov bigend 0 (t :: f) hl Hfacts) as (B & L & C & Ee).
+    assert (Hb : xbytes l = body).
+    { unfold l, body, enc_forest_ov. rewrite xbytes_app, B, pad_evs_bytes. reflexivity. }
+    assert (Hp : Forall (placed_ok_ov codes ov e tbl) (on_list (placed codes) (tree_size codes) hl (t :: f))).
+    { unfold all_covered in Hcov. unfold forest_ok in Hok. unfold sibs_fit_ov in Hfit.
+      rewrite Forall_forall in *. intros p Hin. split; [|split].
+      - apply Hcov. rewrite <- (placed_list_nodes codes (t :: f) hl). apply (in_map snd) in Hin. exact Hin.
+      - apply Hok. rewrite <- (placed_list_nodes codes (t :: f) hl). apply (in_map snd) in Hin. exact Hin.
+      - apply Hfit. exact Hin. }
+    assert (Hev : Forall (ev_ok dbg e tbl) l).
+    { unfold l. apply Forall_app. split; [|apply pad_evs_ok].
+      change bigend with (be e).
+      apply (evs_list_ov_ok_of codes ov dbg e tbl 0 (t :: f) hl); [|exact Hp].
+      apply Forall_forall. intros k _ d o. apply evs_ov_ok. exact He. }
+    assert (Hch : chain hl 0 l).
+    { unfold l. apply chain_app. split; [exact C|]. rewrite Ee, L. apply pad_evs_chain. }
+    pose proof (at_chain_init dbg e tbl l hl (hl + nlen body) Hev Hch ltac:(rewrite Hb; reflexivity) Hlen) as Hat.
+    rewrite Hb in Hat.
+    (* the first event is the root entry of t *)
+    unfold l, evs_list_ov in Hat. rewrite on_list_cons, evs_ov_tail in Hat.
+    fold (evs_list_ov codes ov bigend 0 (hl + tree_size codes t) f) in Hat.
+    rewrite <- !app_assoc in Hat. cbn [app] in Hat. change bigend with (be e) in Hat.
+    set (l2 := evs_list_ov codes ov (be e) 0 (hl + tree_size codes t) f ++ pad_evs (hl + forest_size codes (t :: f)) 0 pad) in *.
+    destruct (at_chain_step _ _ _ _ _ _ _ _ Hat) as (Hr & Hat1 & _ & _ & (b0 & r0 & Eb)).
+    cbn [r_in] in Eb.
+    assert (Hne : body <> []) by (rewrite Eb; discriminate).
+    pose proof (entries_raw_root dbg bigend types uoff h body Hlen Hne) as Hraw.
+    eexists. split; [apply entries_tree_raw_any; exact Hraw|].
+    cbn [r_in]. unfold walk_tree, tree_root. cbn [tr_root tr_raw r_end]. fold hl. rewrite Hr. clear Hr.
+    assert (Hpt : Forall (placed_ok_ov codes ov e tbl) (placed codes hl t)).
+    { rewrite on_list_cons in Hp. apply Forall_app in Hp. tauto. }
+    assert (Hn : node_ok codes e t).
+    { rewrite placed_unfold in Hpt. inversion Hpt as [|? ? (_ & Hn & _) _]. exact Hn. }
+    cbn [head_ev_ov x_die x_post bind] in Hat1 |- *. rewrite (root_die_ov_not_null codes ov e hl 0 t Hn). cbn [negb tr_entry].
+    set (t1 := mkTree _ _ _).
+    rewrite (walk_tree_claim_ov codes ov dbg e tbl (hl + nlen body) [] t 0%Z hl l2 t1 _ eq_refl Hat1 eq_refl Hpt).
+    - cbn [bind]. rewrite dtree_ov_unfold. change (0 + 1)%Z with 1%Z. reflexivity.
+    - pose proof (nodes_le_size codes t) as Hs.
+      assert (Hnk : nodes t = t :: forest_nodes (t_kids t)) by (destruct t; reflexivity).
+      rewrite Hnk in Hs. cbn [length] in Hs.
+      pose proof (enc_forest_ov_len codes ov bigend hl (t :: f) pad) as Hl. fold body in Hl.
+      unfold enc_forest in Hl. rewrite nlen_app, enc_forest_list_len in Hl. unfold forest_size in Hl.
+      cbn [map sumN fold_right] in Hl. unfold nlen in *. lia.
+  Qed.
+End UnitOvTree.
